@@ -835,26 +835,35 @@ def check_class_attr_paths(world: Dict[str, Any], system: Any) -> List[Viol]:
         lin = ref_mro(world, cid, memo)
         if lin is None:
             continue
-        scope_obj = system.allobjects.get(modname)
         objs = bym.get(cid, [])
-        if not isinstance(scope_obj, model.Module) or len(objs) != 1:
+        if len(objs) != 1:
             continue
-        if truth['reexporters'].get(str(cid)):
-            continue      # the class was moved: its defining module no longer holds the name locally
         names: Dict[str, List[Any]] = {}
         for c in lin:
             for n, b in truth['cns'].get(str(c), {}).items():
                 names.setdefault(n, b)
-        kname = defs[str(cid)]['name']
-        for n, b in sorted(names.items()):
-            got = scope_obj.resolveName(f'{kname}.{n}')
-            ok = binding_matches(world, got, b)
-            if ok is False:
-                inherited = int(n not in truth['cns'].get(str(cid), {}))
-                out.append((f'wrong-object,route=class-attribute,inherited={inherited},kind={b[0]}',
-                            f'in {modname}, {kname}.{n} resolves to {got!r}; attribute lookup along the MRO {lin} binds {b}'))
-            elif ok is None and b[0] == 'd' and defs[str(b[1])].get('outer') in lin and not defs[str(b[1])].get('nodoc') \
-                    and defs[str(b[1])]['kind'] not in ('ivar', 'field'):
-                out.append((f'unresolved,route=class-attribute,inherited={int(defs[str(b[1])]["outer"] != cid)}',
-                            f'in {modname}, member {kname}.{n} (M{b[1]}) does not resolve'))
+        # every module-level name that Python binds to this class, in the defining module and in the modules that import
+        # it: once pydoctor resolves the name to the class, ``name.member`` has to follow (also when the class has since
+        # been moved by a re-export)
+        for scope_name, ns in sorted(truth['ns'].items()):
+            scope_obj = system.allobjects.get(scope_name)
+            if not isinstance(scope_obj, model.Module):
+                continue
+            for kname, kb in sorted(ns.items()):
+                if kb[0] != 'd' or kb[1] != cid:
+                    continue
+                if scope_obj.resolveName(kname) is not objs[0]:
+                    continue
+                via = 'class-attribute' if scope_name == modname else 'imported-class-attribute'
+                for n, b in sorted(names.items()):
+                    got = scope_obj.resolveName(f'{kname}.{n}')
+                    ok = binding_matches(world, got, b)
+                    if ok is False:
+                        inherited = int(n not in truth['cns'].get(str(cid), {}))
+                        out.append((f'wrong-object,route={via},inherited={inherited},kind={b[0]}',
+                                    f'in {scope_name}, {kname}.{n} resolves to {got!r}; attribute lookup along the MRO {lin} binds {b}'))
+                    elif ok is None and b[0] == 'd' and defs[str(b[1])].get('outer') in lin and not defs[str(b[1])].get('nodoc') \
+                            and defs[str(b[1])]['kind'] not in ('ivar', 'field'):
+                        out.append((f'unresolved,route={via},inherited={int(defs[str(b[1])]["outer"] != cid)}',
+                                    f'in {scope_name}, member {kname}.{n} (M{b[1]}) does not resolve'))
     return out
